@@ -432,6 +432,8 @@ impl Drop for EndpointDriver {
         // Drop all outgoing channels, signaling the termination of the endpoint to the associated
         // connections.
         endpoint.recv_state.connections.senders.clear();
+        // No connection is tracked any more, and nobody is left to report `Drained` events
+        self.0.shared.idle.notify_waiters();
     }
 }
 
